@@ -2,91 +2,125 @@
 (* Request/response matching with a writer goroutine W and a reader           *)
 (* goroutine R on one connection, and the peer (C04).                         *)
 (*                                                                            *)
-(* W, per request (transaction id t):                                         *)
-(*     W_Call(t)      enters WritePacket (marshal)                            *)
-(*     W_Register(t)  remembers t under the lock                              *)
-(*     W_TWrite(t)    hands the request bytes to the transport                *)
-(*     W_Return(t)    WritePacket returns                                     *)
-(*   the property requires Register before TWrite (RegisterFirst = TRUE);     *)
-(*   RegisterFirst = FALSE is the named deviation "register after write".     *)
-(* Peer:  P_Respond(t) once the request bytes are in the transport            *)
+(* W, per request i (transaction id t = Reqs[i]):                             *)
+(*     W_Call         enters WritePacket (marshal)                            *)
+(*     W_Register     remembers t under the lock                              *)
+(*     W_TWrite       ONE transport write carrying the next part of the       *)
+(*                    request's bytes; the request reaches the transport in   *)
+(*                    Parts[i] >= 1 transport writes (a buffered writer       *)
+(*                    writes through as soon as its buffer overflows, a       *)
+(*                    chunk-by-chunk flusher writes once per chunk, ...) and  *)
+(*                    is IN the transport when the last of them was entered   *)
+(*     W_Return       WritePacket returns                                     *)
+(*   RegAfter[i] = number of transport writes of request i that precede its   *)
+(*   registration. The rule the property needs ("RegisterFirst over parts")   *)
+(*   is RegAfter[i] = 0: registration precedes the FIRST transport write of   *)
+(*   the request's bytes. Named deviations:                                   *)
+(*     "register-after-write"   RegAfter[i] = Parts[i]                        *)
+(*     "register-before-flush"  RegAfter[i] = 0 for a request that fits into  *)
+(*                              the write buffer (Parts[i] = 1), = Parts[i]   *)
+(*                              for one that was written through before the   *)
+(*                              final flush                                   *)
+(*   (TLC also shows that NoSpurious is exactly "registered before the        *)
+(*   COMPLETING write": RegAfter[i] < Parts[i], cfg MC_TxnConc_beforelast;    *)
+(*   replayed executions are judged by lookup outcomes only.)                 *)
+(* Peer:  P_Respond(t) once the complete request is in the transport          *)
 (*        (Dups: set of ids answered twice).                                  *)
 (* R:     R_Read reads the next response; R_Lookup looks it up under the      *)
-(*        lock: found => forget it and succeed, else fail.                    *)
+(*        lock: found => forget it and succeed, else fail - ONE atomic step   *)
+(*        (LookupAtomic = TRUE). Named deviation "lookup-then-reset"          *)
+(*        (LookupAtomic = FALSE): when the lookup emptied the table, the      *)
+(*        reader replaces the table by a fresh one in a SECOND critical       *)
+(*        section (R_Reset) - what W registered in between is lost.           *)
 EXTENDS Integers, Sequences, FiniteSets, TLC
 
 CONSTANTS Reqs,          \* sequence of transaction ids W sends, in order (an id may be used again by a later request)
+          Parts,         \* Parts[i]: number of transport writes the bytes of request i take (>= 1)
+          RegAfter,      \* RegAfter[i] \in 0..Parts[i]: transport writes of request i before its registration
           Dups,          \* ids the peer answers twice
-          RegisterFirst,
-          FailIdx        \* positions in Reqs whose transport write FAILS (nothing reaches the transport, WritePacket
-                         \* returns the transport's error); a failed request must not disturb an earlier outstanding
-                         \* request that happens to use the same id
+          LookupAtomic,  \* the reader's lookup+forget is one critical section and nothing else touches the table
+          FailIdx        \* positions in Reqs one of whose transport writes FAILS (that part and what follows never reaches
+                         \* the transport, WritePacket returns the transport's error); a failed request must not disturb
+                         \* an earlier outstanding request that happens to use the same id
 
 Ids == {Reqs[i] : i \in 1..Len(Reqs)}
 \* after a failed transport write the connection's buffered writer stays failed: only the last request can fail
 ASSUME FailIdx \subseteq {Len(Reqs)}
+ASSUME Len(Parts) = Len(Reqs) /\ Len(RegAfter) = Len(Reqs)
+ASSUME \A i \in 1..Len(Reqs) : Parts[i] >= 1 /\ RegAfter[i] \in 0..Parts[i]
 
 VARIABLES widx,      \* index of the request W is working on (Len+1 when done)
-          wpc,       \* "idle" | "called" | "registered" | "written" (waiting to return)
+          wpc,       \* "idle" | "busy" (inside WritePacket) | "done" (about to return)
+          wparts,    \* transport writes of the current request entered so far
+          wreg,      \* the current request has been registered
           pending,   \* set of remembered ids
-          written,   \* ids whose bytes reached the transport
+          written,   \* ids whose bytes COMPLETELY reached the transport
           nresp,     \* id -> number of responses the peer sent
           inbox,     \* responses in flight to R
           rcur,      \* response R has read and not yet looked up (0 = none)
+          rreset,    \* (deviation) R emptied the table and will replace it in a second critical section
           results,   \* sequence of <<id, "ok"|"fail">> in lookup order
-          sched      \* the schedule so far (labels), for replay
-vars == <<widx, wpc, pending, written, nresp, inbox, rcur, results, sched>>
+          sched      \* the schedule so far (<<label, id, flag>>), for replay
+vars == <<widx, wpc, wparts, wreg, pending, written, nresp, inbox, rcur, rreset, results, sched>>
 
-Init == /\ widx = 1 /\ wpc = "idle" /\ pending = {} /\ written = {}
-        /\ nresp = [t \in Ids |-> 0] /\ inbox = <<>> /\ rcur = 0 /\ results = <<>> /\ sched = <<>>
+Init == /\ widx = 1 /\ wpc = "idle" /\ wparts = 0 /\ wreg = FALSE /\ pending = {} /\ written = {}
+        /\ nresp = [t \in Ids |-> 0] /\ inbox = <<>> /\ rcur = 0 /\ rreset = FALSE /\ results = <<>> /\ sched = <<>>
 
 Cur == Reqs[widx]
-Log(l, t) == sched' = Append(sched, <<l, t>>)
+Log(l, t, x) == sched' = Append(sched, <<l, t, x>>)
 
-W_Call == /\ widx <= Len(Reqs) /\ wpc = "idle" /\ wpc' = "called" /\ Log("call", Cur)
-          /\ UNCHANGED <<widx, pending, written, nresp, inbox, rcur, results>>
+W_Call == /\ widx <= Len(Reqs) /\ wpc = "idle" /\ wpc' = "busy" /\ wparts' = 0 /\ wreg' = FALSE /\ Log("call", Cur, 0)
+          /\ UNCHANGED <<widx, pending, written, nresp, inbox, rcur, rreset, results>>
 
 W_Register ==
-  /\ widx <= Len(Reqs)
-  /\ IF RegisterFirst THEN wpc = "called" ELSE wpc = "written"
+  /\ widx <= Len(Reqs) /\ wpc = "busy" /\ ~wreg /\ wparts = RegAfter[widx]
   /\ pending' = pending \cup {Cur}
-  /\ wpc' = IF RegisterFirst THEN "registered" ELSE "done"
-  /\ Log("register", Cur)
-  /\ UNCHANGED <<widx, written, nresp, inbox, rcur, results>>
+  /\ wreg' = TRUE
+  /\ Log("register", Cur, 0)
+  /\ UNCHANGED <<widx, wpc, wparts, written, nresp, inbox, rcur, rreset, results>>
 
+\* one transport write; flag 1 in the schedule = this write completes the request
 W_TWrite ==
-  /\ widx <= Len(Reqs)
-  /\ IF RegisterFirst THEN wpc = "registered" ELSE wpc = "called"
-  /\ IF widx \in FailIdx
-     THEN /\ written' = written                 \* the transport refused the bytes
-          /\ wpc' = "done"                      \* WritePacket returns the error
-          /\ Log("twritefail", Cur)
-     ELSE /\ written' = written \cup {Cur}
-          /\ wpc' = IF RegisterFirst THEN "done" ELSE "written"
-          /\ Log("twrite", Cur)
-  /\ UNCHANGED <<widx, pending, nresp, inbox, rcur, results>>
+  /\ widx <= Len(Reqs) /\ wpc = "busy" /\ wparts < Parts[widx]
+  /\ wreg \/ wparts < RegAfter[widx]
+  /\ \/ /\ widx \in FailIdx                     \* the transport refuses this part: WritePacket returns the error
+        /\ wpc' = "done" /\ wparts' = wparts /\ written' = written
+        /\ Log("twritefail", Cur, 0)
+     \/ /\ widx \in FailIdx => wparts + 1 < Parts[widx]      \* a failing request never gets complete
+        /\ wparts' = wparts + 1
+        /\ written' = IF wparts' = Parts[widx] THEN written \cup {Cur} ELSE written
+        /\ wpc' = "busy"
+        /\ Log("twrite", Cur, IF wparts' = Parts[widx] THEN 1 ELSE 0)
+  /\ UNCHANGED <<widx, wreg, pending, nresp, inbox, rcur, rreset, results>>
 
-W_Return == /\ widx <= Len(Reqs) /\ wpc = "done" /\ wpc' = "idle" /\ widx' = widx + 1 /\ Log("return", Cur)
-            /\ UNCHANGED <<pending, written, nresp, inbox, rcur, results>>
+W_Return == /\ widx <= Len(Reqs)
+            /\ wpc = "done" \/ (wpc = "busy" /\ wparts = Parts[widx] /\ wreg)
+            /\ wpc' = "idle" /\ widx' = widx + 1 /\ Log("return", Cur, 0)
+            /\ UNCHANGED <<wparts, wreg, pending, written, nresp, inbox, rcur, rreset, results>>
 
 P_Respond(t) ==
   /\ t \in written /\ nresp[t] < (IF t \in Dups THEN 2 ELSE 1)
   /\ nresp' = [nresp EXCEPT ![t] = @ + 1]
-  /\ inbox' = Append(inbox, t) /\ Log("respond", t)
-  /\ UNCHANGED <<widx, wpc, pending, written, rcur, results>>
+  /\ inbox' = Append(inbox, t) /\ Log("respond", t, 0)
+  /\ UNCHANGED <<widx, wpc, wparts, wreg, pending, written, rcur, rreset, results>>
 
-R_Read == /\ rcur = 0 /\ inbox # <<>> /\ rcur' = Head(inbox) /\ inbox' = Tail(inbox) /\ Log("read", Head(inbox))
-          /\ UNCHANGED <<widx, wpc, pending, written, nresp, results>>
+R_Read == /\ rcur = 0 /\ ~rreset /\ inbox # <<>> /\ rcur' = Head(inbox) /\ inbox' = Tail(inbox) /\ Log("read", Head(inbox), 0)
+          /\ UNCHANGED <<widx, wpc, wparts, wreg, pending, written, nresp, rreset, results>>
 
 R_Lookup ==
   /\ rcur # 0
   /\ IF rcur \in pending
-     THEN pending' = pending \ {rcur} /\ results' = Append(results, <<rcur, "ok">>)
-     ELSE pending' = pending /\ results' = Append(results, <<rcur, "fail">>)
-  /\ rcur' = 0 /\ Log("lookup", rcur)
-  /\ UNCHANGED <<widx, wpc, written, nresp, inbox>>
+     THEN /\ pending' = pending \ {rcur} /\ results' = Append(results, <<rcur, "ok">>)
+          /\ rreset' = (~LookupAtomic /\ pending' = {})
+     ELSE /\ pending' = pending /\ results' = Append(results, <<rcur, "fail">>) /\ rreset' = rreset
+  /\ rcur' = 0 /\ Log("lookup", rcur, 0)
+  /\ UNCHANGED <<widx, wpc, wparts, wreg, written, nresp, inbox>>
 
-Next == W_Call \/ W_Register \/ W_TWrite \/ W_Return \/ (\E t \in Ids : P_Respond(t)) \/ R_Read \/ R_Lookup
+\* deviation only: the second critical section of "lookup-then-reset"
+R_Reset == /\ rreset /\ rreset' = FALSE /\ pending' = {} /\ Log("reset", 0, 0)
+           /\ UNCHANGED <<widx, wpc, wparts, wreg, written, nresp, inbox, rcur, results>>
+
+Next == W_Call \/ W_Register \/ W_TWrite \/ W_Return \/ (\E t \in Ids : P_Respond(t)) \/ R_Read \/ R_Lookup \/ R_Reset
 Spec == Init /\ [][Next]_vars
 
 \* ---------------------------------------------------------------- properties
@@ -97,9 +131,12 @@ NthResult(t, n) == LET idx == {k \in 1..Len(results) : results[k][1] = t} IN
 NoSpurious == \A t \in Ids : NthResult(t, 1) # "fail"
 \* no response is matched twice
 MatchOnce  == \A t \in Ids : NthResult(t, 2) \in {"none", "fail"}
+\* the rule that makes NoSpurious hold whatever the number of transport writes of a request:
+\* no byte of a request is in the transport before the request is remembered
+RegisterFirst == (wpc = "busy" /\ wparts > 0) => wreg
 \* nothing is lost: when everything has been sent, answered, read and looked up, exactly the
 \* requests without response are still remembered
-Quiescent == widx > Len(Reqs) /\ inbox = <<>> /\ rcur = 0
+Quiescent == widx > Len(Reqs) /\ inbox = <<>> /\ rcur = 0 /\ ~rreset
 AllAnswered == \A t \in Ids : nresp[t] = (IF t \in Dups THEN 2 ELSE 1)
 \* nothing is lost: at quiescence every request that reached the transport and was not answered is still
 \* remembered, and nothing else is - except that a request whose write failed may leave its id remembered
